@@ -84,7 +84,7 @@ PROPS["C03"] = _std(
     "DESIGN.md section 4, C03",
     "explicit-state BFS (stateright) over real point representations + decoder alphabet enumeration against the affine group law",
     lambda tier: [R("simd"), R("simd", dispatch="serial"), R("serial32"), R("avx512")] if tier == "quick" else
-                 [R("simd"), R("simd", dispatch="serial"), R("serial32"), R("serial64"), R("fiat64"), R("fiat32"), R("avx512"), R("avx512", dispatch="avx2")],
+                 [R("simd", deep=True), R("simd", dispatch="serial"), R("serial32"), R("serial64"), R("fiat64"), R("fiat32"), R("avx512"), R("avx512", dispatch="avx2")],
 )
 
 PROPS["C04"] = _std(
